@@ -365,9 +365,9 @@ func cmdCheck(args []string) int {
 		}
 		return 3
 	}
-	baseTO, floatTO, agree := 20, 150, 1
+	baseTO, floatTO, agree := 20, 300, 1
 	if *tier == "thorough" {
-		baseTO, floatTO, agree = 120, 900, 2
+		baseTO, floatTO, agree = 120, 1200, 2
 	}
 	timeoutFor := func(o *Obligation) int {
 		if o.Cover {
